@@ -16,7 +16,8 @@ RULE = ("Cases: one three-component recording (60-1200 samples, drawn recipes, d
         "[-720,720], optional metadata) and a history of 1-8 operations: trim (ends on and between samples, also illegal "
         "ranges), Butterworth filter, detrend, taper, re-orientation, save->load, the three copy constructors, splitting (of "
         "the recording and of single components); after every copy one side is edited in place. Non-trivial = >= 2 modifying "
-        "operations precede a save or copy; distinct by SHA-1 of the case.")
+        "operations precede a save or copy; distinct by SHA-1 of the case."
+        ' Metadata: none, plain ASCII, or practical text (accents, CJK, astral characters, lone surrogates from os.fsdecode); a third of the non-ASCII histories with a save/load are also evaluated in an ASCII-locale child interpreter.')
 ASSUMPTIONS = [
     "trim times may lie (to within an ulp) half-way between two samples: the nearest sample is then decided in exact rational arithmetic on the float values and exact ties are skipped",
     "the model applies the same scipy/numpy primitives (butter/sosfiltfilt, detrend, tukey) to plain arrays; only bookkeeping (which samples, which components, copies, persistence) is under test",
